@@ -64,13 +64,13 @@ impl<'r> Gen<'r> {
             T::Bool => (if self.rng.chance(1, 2) { "true" } else { "false" }).to_string(),
             T::Int => self
                 .rng
-                .pick(&["0", "1", "2", "3", "5", "7", "31", "32", "100", "255", "65535", "2147483647", "-1", "-7", "-2147483647", "1000000"])
+                .pick(&["0", "1", "2", "3", "5", "7", "31", "32", "100", "255", "65535", "2147483647", "-1", "-7", "-2147483647", "-2147483648", "1000000"])
                 .to_string(),
             T::Uint => self
                 .rng
                 .pick(&["0u", "1u", "2u", "7u", "31u", "33u", "4294967295u", "2147483648u", "3", "12", "65536u"])
                 .to_string(),
-            T::Float => self.rng.pick(&["1.0f", "2.5f", "-1.5f", "0.25f", "100.0f", "1", "3"]).to_string(),
+            T::Float => self.rng.pick(&["0.0f", "-0.0f", "1.0f", "2.5f", "-1.5f", "0.25f", "100.0f", "1", "3"]).to_string(),
             _ => "0".to_string(),
         }
     }
@@ -102,6 +102,11 @@ impl<'r> Gen<'r> {
         // implicit conversion: an operand of another type where `t` is expected
         if self.rng.chance(1, 8) {
             let other = self.pick_ty(true);
+            if other == T::Bool && t != T::Bool {
+                // a bool next to an int literal makes the type checker compute in IntLiteral (Cast(IntLiteral, bool)),
+                // the class of the known finding `2147483647 + t`: converted explicitly here, covered by the corpus entry
+                return format!("({})({})", tn(t), self.expr(other, d, scope));
+            }
             if other != t {
                 return format!("({})", self.expr(other, d, scope));
             }
@@ -175,8 +180,39 @@ impl<'r> Gen<'r> {
         }
     }
 
+    /// a call of a pure built-in whose arguments and result have type `t` (or bool for the float predicates)
+    fn builtin(&mut self, t: T, d: u32, scope: &[VarInfo]) -> Option<String> {
+        let (names1, names2, names3): (&[&str], &[&str], &[&str]) = match t {
+            T::Float => (
+                &["abs", "sqrt", "sin", "cos", "floor", "ceil", "frac", "exp2", "log2", "saturate", "rsqrt", "trunc", "round", "rcp"],
+                &["min", "max", "pow", "step", "fmod", "atan2"],
+                &["clamp", "lerp", "smoothstep"],
+            ),
+            T::Int => (&["abs"], &["min", "max"], &["clamp"]),
+            T::Uint => (&["countbits", "reversebits", "firstbitlow"], &["min", "max"], &["clamp"]),
+            T::Bool => {
+                if !self.opts.floats {
+                    return None;
+                }
+                let f = *self.rng.pick(&["isnan", "isinf", "isfinite"]);
+                return Some(format!("{}({})", f, self.expr(T::Float, d, scope)));
+            }
+            _ => return None,
+        };
+        Some(match self.rng.below(3) {
+            0 => format!("{}({})", self.rng.pick(names1), self.expr(t, d, scope)),
+            1 => format!("{}({}, {})", self.rng.pick(names2), self.expr(t, d, scope), self.expr(t, d, scope)),
+            _ => format!("{}({}, {}, {})", self.rng.pick(names3), self.expr(t, d, scope), self.expr(t, d, scope), self.expr(t, d, scope)),
+        })
+    }
+
     /// ternary, comma, assignment expression, increment, call
     fn common_forms(&mut self, t: T, d: u32, scope: &[VarInfo]) -> String {
+        if self.rng.chance(1, 6) && (t != T::Float || self.opts.floats) {
+            if let Some(b) = self.builtin(t, d, scope) {
+                return b;
+            }
+        }
         match self.rng.below(7) {
             0 | 1 => format!("({} ? {} : {})", self.expr(T::Bool, d, scope), self.expr(t, d, scope), self.expr(t, d, scope)),
             2 => format!("({}, {})", self.expr_any(d, scope), self.expr(t, d, scope)),
@@ -252,7 +288,7 @@ impl<'r> Gen<'r> {
     fn stmt(&mut self, depth: u32, scope: &mut Vec<VarInfo>, in_loop: bool, ret: T, ind: &str, out: &mut String) {
         let d = self.opts.max_depth;
         let inner = format!("{}    ", ind);
-        match self.rng.below(if depth == 0 { 7 } else { 14 }) {
+        match self.rng.below(if depth == 0 { 7 } else { 16 }) {
             0 | 1 => {
                 let t = self.pick_ty(true);
                 let n = self.fresh("l");
@@ -363,6 +399,70 @@ impl<'r> Gen<'r> {
                 scope.push(VarInfo { name: w.clone(), ty: T::Int, assignable: false });
                 self.block(depth - 1, &mut scope.clone(), true, ret, &inner, out);
                 out.push_str(&format!("{}}}\n{}while ({} < {});\n", ind, ind, w, n));
+            }
+            13 | 14 => {
+                // switch: distinct labels (some negative, some consecutive), fall-through, break, default anywhere
+                let t = if self.rng.chance(1, 4) { T::Uint } else { T::Int };
+                // the controlling expression mentions a variable (a pure literal expression keeps the IntLiteral type)
+                let vs = self.vars_of(scope, t, false);
+                if vs.is_empty() {
+                    return;
+                }
+                let v = self.rng.pick(&vs).clone();
+                let scrut = match self.rng.below(4) {
+                    0 => v,
+                    1 => format!("{} & 3", v),
+                    2 => format!("{} - {}", v, self.expr(t, 1, scope)),
+                    _ => format!("{} % 4", v),
+                };
+                out.push_str(&format!("{}switch ({})\n{}{{\n", ind, scrut, ind));
+                let pool: Vec<&str> = if t == T::Uint { vec!["0u", "1u", "2u", "3u", "7u", "4294967295u"] } else { vec!["0", "1", "2", "3", "-1", "-7", "2147483647", "-2147483648"] };
+                let mut used: Vec<&str> = Vec::new();
+                let groups = 1 + self.rng.below(3);
+                let default_at = if self.rng.chance(2, 3) { Some(self.rng.below(groups)) } else { None };
+                let in2 = format!("{}    ", inner);
+                for g in 0..groups {
+                    let nl = 1 + self.rng.below(2);
+                    let mut any = false;
+                    for _ in 0..nl {
+                        let c = *self.rng.pick(&pool);
+                        if !used.contains(&c) {
+                            used.push(c);
+                            out.push_str(&format!("{}case {}:\n", inner, c));
+                            any = true;
+                        }
+                    }
+                    if default_at == Some(g) {
+                        out.push_str(&format!("{}default:\n", inner));
+                        any = true;
+                    }
+                    if !any {
+                        continue;
+                    }
+                    // the statements of the group never declare variables that later groups could see uninitialised
+                    let bare: Vec<String> = [T::Int, T::Uint, T::Bool].iter().flat_map(|t| self.vars_of(scope, *t, true).into_iter().map(move |v| (v, *t))).map(|(v, t)| format!("{}\u{1}{}", v, t.name())).collect();
+                    if !bare.is_empty() && self.rng.chance(1, 2) {
+                        // bare statements directly after the label(s): the label owns the first one
+                        let k = 1 + self.rng.below(2);
+                        for _ in 0..k {
+                            let pick = self.rng.pick(&bare).clone();
+                            let (v, tn_) = pick.split_once('\u{1}').unwrap();
+                            let t2 = T::parse(tn_).unwrap_or(T::Int);
+                            out.push_str(&format!("{}{} = {};\n", in2, v, self.expr(t2, 1, scope)));
+                        }
+                    } else {
+                        let mut sc = scope.clone();
+                        out.push_str(&format!("{}{{\n", in2));
+                        self.block(depth - 1, &mut sc, in_loop, ret, &format!("{}    ", in2), out);
+                        out.push_str(&format!("{}}}\n", in2));
+                    }
+                    match self.rng.below(4) {
+                        0 => {} // fall through
+                        1 if in_loop => out.push_str(&format!("{}continue;\n", in2)),
+                        _ => out.push_str(&format!("{}break;\n", in2)),
+                    }
+                }
+                out.push_str(&format!("{}}}\n", ind));
             }
             _ => {
                 out.push_str(&format!("{}{{\n", ind));
